@@ -47,6 +47,32 @@ func runE1(spec RunSpec, ch *Choices) *RunResult {
 		x.d.Logf("  %s", l)
 	}
 
+	if x.mode.PooledP > 0 && ch.Bool("cfg", x.mode.PooledP) {
+		res.Mode = spec.Prop + "/pooled"
+		x.prog.Cfg.Manual = false
+		x.prog.Cfg.Serve = true
+		x.prog.Cfg.Inactivity = 0
+		x.prog.FaultTask = nil
+		for _, r := range x.prog.RPCs {
+			// no wire-level tricks in this family: plain calls, cancels and errors
+			r.Unknown = false
+		}
+		res.Desc = append(x.prog.Describe(), "family: pooled")
+		return x.runPooled(func() *RunResult {
+			res.Hash = x.d.LogHash()
+			res.Steps = x.d.Step
+			res.SimTimeMS = x.d.SimTime.Milliseconds()
+			res.States = len(x.d.States)
+			for s := range x.d.States {
+				res.StateSet = append(res.StateSet, s)
+			}
+			res.Preempt = x.d.Preempt
+			res.Lines = x.d.Lines
+			res.Decisions = x.d.Decisions
+			res.Draws = ch.Draws
+			return res
+		})
+	}
 	x.setup()
 	if x.planStep > 0 {
 		x.d.AtStep = func(step int) {
